@@ -1442,25 +1442,21 @@ Proof.
   change (oc_norm 0) with 0 in F. rewrite Z.add_0_l in F. exact F.
 Qed.
 
-(* icmpChecksum: addresses, 32-bit upper-layer length, 3 zero bytes + next header, payload views,
-   then the header with its checksum field zeroed *)
-Lemma icmp6_chain src dst LL K vv h0 :
-  bytes_ok src -> bytes_ok dst -> bytes_ok LL -> bytes_ok K -> Forall bytes_ok vv -> bytes_ok h0 ->
+(* icmpChecksum: addresses, 32-bit upper-layer length, 3 zero bytes + next header, the payload as
+   one byte string, then the header with its checksum field zeroed *)
+Lemma icmp6_chain src dst LL K pl h0 :
+  bytes_ok src -> bytes_ok dst -> bytes_ok LL -> bytes_ok K -> bytes_ok pl -> bytes_ok h0 ->
   Z.of_nat (length src) <= 131072 -> Z.of_nat (length dst) <= 131072 -> Z.of_nat (length LL) <= 131072 ->
-  Z.of_nat (length K) <= 131072 -> Forall (fun b => Z.of_nat (length b) <= 131072) vv -> Z.of_nat (length h0) <= 131072 ->
-  checksum h0 (checksum_chunks vv (checksum K (checksum LL (checksum dst (checksum src 0))))) =
-  oc_norm (ws src + ws dst + ws LL + ws K + sum_ws vv + ws h0).
+  Z.of_nat (length K) <= 131072 -> Z.of_nat (length pl) <= 131072 -> Z.of_nat (length h0) <= 131072 ->
+  checksum h0 (checksum pl (checksum K (checksum LL (checksum dst (checksum src 0))))) =
+  oc_norm (ws src + ws dst + ws LL + ws K + ws pl + ws h0).
 Proof.
   intros Bs Bd BL BK Bv Bh Ls Ld LLl LK Lv Lh.
-  pose proof (checksum_fold_ws0 ([src; dst; LL; K] ++ vv ++ [h0])) as F.
-  rewrite !fold_left_app in F. cbn [fold_left] in F. unfold checksum_chunks. rewrite F.
-  - f_equal. rewrite !sum_ws_app. cbn [sum_ws fold_right]. lia.
-  - apply Forall_app; split; [|apply Forall_app; split];
-      [repeat (apply Forall_cons; [assumption|]); apply Forall_nil|assumption|
-       repeat (apply Forall_cons; [assumption|]); apply Forall_nil].
-  - apply Forall_app; split; [|apply Forall_app; split];
-      [repeat (apply Forall_cons; [assumption|]); apply Forall_nil|assumption|
-       repeat (apply Forall_cons; [assumption|]); apply Forall_nil].
+  pose proof (checksum_fold_ws0 [src; dst; LL; K; pl; h0]) as F.
+  cbn [fold_left] in F. rewrite F.
+  - f_equal. cbn [sum_ws fold_right]. lia.
+  - repeat (apply Forall_cons; [assumption|]). apply Forall_nil.
+  - repeat (apply Forall_cons; [assumption|]). apply Forall_nil.
 Qed.
 
 Lemma ws_be32_small L : 0 <= L < 65536 -> ws (be32 (w32 L)) = L.
@@ -1474,13 +1470,13 @@ Qed.
 Lemma icmp6_echo_reply_flat r t cd x2 x3 i0 i1 q0 q1 more vv :
   bytes_ok (rLocal r) -> bytes_ok (rRemote r) -> (length (rLocal r) <= 16)%nat -> (length (rRemote r) <= 16)%nat ->
   is_byte cd -> is_byte i0 -> is_byte i1 -> is_byte q0 -> is_byte q1 ->
-  Forall bytes_ok vv -> nonfinal_even vv -> 8 + vsize vv <= 65535 ->
+  Forall bytes_ok vv -> 8 + vsize vv <= 65535 ->
   let h := t :: cd :: x2 :: x3 :: i0 :: i1 :: q0 :: q1 :: more in
   let L := 8 + vsize vv in
   let ck := xsum_of (rLocal r) (rRemote r) 58 L ([129; cd; 0; 0; i0; i1; q0; q1] ++ concat vv) in
   icmp6_echo_reply r h vv = Some [129; cd; ck / 256; ck mod 256; i0; i1; q0; q1] /\ is_u16 ck.
 Proof.
-  intros Bs Bd Ls Ld Hcd Hi0 Hi1 Hq0 Hq1 Bv Hev Hsz h L ck. subst h.
+  intros Bs Bd Ls Ld Hcd Hi0 Hi1 Hq0 Hq1 Bv Hsz h L ck. subst h.
   assert (Hvs : 0 <= vsize vv) by (unfold vsize; lia).
   unfold icmp6_echo_reply, icmp_setType, icmp_setChecksum, copy_into, set_range, zeros, put8, put16.
   cbn [repeat length Nat.add Nat.leb firstn skipn app upd obind].
@@ -1491,8 +1487,10 @@ Proof.
   assert (EL : Z.of_nat 8 + vsize vv = L) by (subst L; lia). rewrite EL.
   assert (BLL : bytes_ok (be32 (w32 L))) by apply be32_ok.
   assert (BK : bytes_ok [0; 0; 0; 58]) by bytes_tac.
-  rewrite icmp6_chain; try assumption; try (cbn [length]; lia); try lia; try (apply data_lens; lia); try (subst h0; cbn [length]; lia); try (unfold be32; cbn [length]; lia).
-  rewrite sum_ws_concat by exact Hev. rewrite ws_be32_small by (subst L; lia). rewrite ws4.
+  assert (Bc : bytes_ok (concat vv)) by (apply Forall_concat, Bv).
+  assert (Lc : Z.of_nat (length (concat vv)) <= 131072) by (unfold vsize in *; lia).
+  rewrite icmp6_chain; try assumption; try (cbn [length]; lia); try lia; try (subst h0; cbn [length]; lia); try (unfold be32; cbn [length]; lia).
+  rewrite ws_be32_small by (subst L; lia). rewrite ws4.
   assert (EH : ws (h0 ++ concat vv) = ws h0 + ws (concat vv)) by (apply ws_app_even; reflexivity).
   assert (Eck : lnot16 (oc_norm (ws (rLocal r) + ws (rRemote r) + L + (0 * 256 + 0 + (0 * 256 + 58)) + ws (concat vv) + ws h0)) = ck).
   { subst ck. unfold xsum_of. fold h0. rewrite EH. f_equal. f_equal. lia. }
@@ -1511,12 +1509,13 @@ Qed.
 
 (* an echo request (type 128, code 0) is answered with a well-formed echo reply carrying the same
    identifier, sequence number and data; [h] is the first view of the request (>= 8 bytes, only its
-   first 8 are used), [vv] the views after TrimFront(8) *)
+   first 8 are used), [vv] the views after TrimFront(8) - any views: since /repo 1404d7f
+   icmpChecksum sums their concatenation, so odd-length non-final views are fine *)
 Theorem icmp6_echo_reply_wf r x2 x3 i0 i1 q0 q1 more vv ttl :
   length (rLocal r) = 16%nat -> length (rRemote r) = 16%nat -> bytes_ok (rLocal r) -> bytes_ok (rRemote r) ->
   nth 0 (rLocal r) 0 <> 255 ->
   is_byte i0 -> is_byte i1 -> is_byte q0 -> is_byte q1 ->
-  Forall bytes_ok vv -> nonfinal_even vv -> 8 + vsize vv <= 65535 -> 1 <= ttl < 256 ->
+  Forall bytes_ok vv -> 8 + vsize vv <= 65535 -> 1 <= ttl < 256 ->
   let h := 128 :: 0 :: x2 :: x3 :: i0 :: i1 :: q0 :: q1 :: more in
   exists pkt frame,
     icmp6_echo_reply r h vv = Some pkt /\
@@ -1525,10 +1524,10 @@ Theorem icmp6_echo_reply_wf r x2 x3 i0 i1 q0 q1 more vv ttl :
     Rfc.view_ip6 frame = Rfc.mkIV (rLocal r) (rRemote r) 58 ttl 0 (pkt ++ concat vv) /\
     Rfc.b8 pkt 0 = 129 /\ Rfc.b8 pkt 1 = 0 /\ skipn 4 (pkt ++ concat vv) = [i0; i1; q0; q1] ++ concat vv.
 Proof.
-  intros Ls Ld Bs Bd Hsrc Hi0 Hi1 Hq0 Hq1 Bv Hev Hsz Httl h.
+  intros Ls Ld Bs Bd Hsrc Hi0 Hi1 Hq0 Hq1 Bv Hsz Httl h.
   assert (Hvs : 0 <= vsize vv) by (unfold vsize; lia).
   destruct (icmp6_echo_reply_flat r 128 0 x2 x3 i0 i1 q0 q1 more vv Bs Bd ltac:(lia) ltac:(lia)
-              ltac:(unfold is_byte; lia) Hi0 Hi1 Hq0 Hq1 Bv Hev Hsz) as [Hrep Hu].
+              ltac:(unfold is_byte; lia) Hi0 Hi1 Hq0 Hq1 Bv Hsz) as [Hrep Hu].
   cbv zeta in Hrep, Hu. set (L := 8 + vsize vv) in *.
   set (ck := xsum_of (rLocal r) (rRemote r) 58 L ([129; 0; 0; 0; i0; i1; q0; q1] ++ concat vv)) in *.
   set (pkt := [129; 0; ck / 256; ck mod 256; i0; i1; q0; q1]) in *.
@@ -1927,14 +1926,14 @@ Proof.
   cbn [repeat upd obind length Nat.add Nat.leb firstn skipn app].
   change (w8 135) with 135. change (w8 1) with 1.
   unfold icmp6_checksum, put8. cbn [length upd obind]. change (w8 0) with 0.
-  change (Z.of_nat 32 + vsize []) with 32.
+  change (Z.of_nat 32 + vsize []) with 32. cbn [concat].
   set (h0 := [135; 0; 0; 0; 0; 0; 0; 0; a0; a1; a2; a3; a4; a5; a6; a7; a8; a9; a10; a11; a12; a13; a14; a15; 1; 1; m0; m1; m2; m3; m4; m5]).
   assert (Eh0 : h0 = [135; 0] ++ 0 :: 0 :: ns_body [a0; a1; a2; a3; a4; a5; a6; a7; a8; a9; a10; a11; a12; a13; a14; a15] [m0; m1; m2; m3; m4; m5]) by reflexivity.
   assert (Bh : bytes_ok h0) by (rewrite Eh0; exact Bbody).
   assert (BK : bytes_ok [0; 0; 0; 58]) by bytes_tac.
   rewrite icmp6_chain; try assumption; try (cbn [length]; lia); try lia; try apply be32_ok;
     try (unfold be32; cbn [length]; lia); try apply Forall_nil; try (subst h0; cbn [length]; lia).
-  rewrite ws_be32_small by lia. rewrite ws4. cbn [sum_ws fold_right].
+  rewrite ws_be32_small by lia. rewrite ws4. change (ws []) with 0.
   assert (Eck : lnot16 (oc_norm (ws localAddr + ws sn + 32 + (0 * 256 + 0 + (0 * 256 + 58)) + 0 + ws h0)) = ck).
   { subst ck. unfold xsum_of. rewrite <- Eh0. f_equal. f_equal. lia. }
   rewrite Eck. cbn [obind].
